@@ -145,7 +145,7 @@ theorem dictGet_map_self (l : List Sp) (g : Sp → Fid) (o : Sp) (ho : o ∈ l) 
 /-- potable builder: the entry `A->B : f` is stored as the density of central A towards neighbour B, whatever the order of
     the entries; combinations that were not declared are zero -/
 theorem C04_builder (embed : List (Sp × Fid)) (dens : List (Sp × Sp × Fid)) (extraOrder : List Sp)
-    (spMeta : Sp → Option (Int × Rat × Rat × String)) (els : List El) (h : eamBuildFS embed dens extraOrder spMeta = some els) :
+    (spMeta : Sp → Option (Int × Rat × Rat × String)) (els : List El) (h : eamBuildFSWith embed dens extraOrder spMeta = some els) :
     ∀ e ∈ els, ∀ o ∈ els.map (·.sp),
       densOf e o = (match dens.find? (fun d => d.1 == e.sp && d.2.1 == o) with
                     | some d => d.2.2
